@@ -69,6 +69,9 @@ func panicInDemuxer(stack string) bool {
 	return false
 }
 
+// lastTSPage: the subtitle page of the transport stream validDoc built last (the generator reads it right after)
+var lastTSPage int
+
 func totRead(format string, doc []byte, opt int) string {
 	return classify(10*time.Second, func() error {
 		var err error
@@ -121,6 +124,7 @@ func validDoc(r *rng, f string) []byte {
 		if r.chance(1, 3) {
 			addTails(r, &tc)
 		}
+		lastTSPage = tc.sched.mag*100 + tc.sched.page
 		return buildTS(r, tc, ttTSOpts{pid: uint16(0x100 + r.intn(0xe00)), video: r.bool(), period: 5, secondTT: r.chance(1, 4), vbi: r.chance(1, 4),
 			emptyDesc: r.chance(1, 6)})
 	}
@@ -150,6 +154,9 @@ func shrinkField(r *rng, d []byte) []byte {
 		}
 	}
 	field := d[a:b]
+	if len(field) == 0 {
+		return d
+	}
 	var keep []byte
 	switch r.intn(4) {
 	case 0:
@@ -164,6 +171,13 @@ func shrinkField(r *rng, d []byte) []byte {
 }
 
 func damage(r *rng, f string, d []byte) []byte {
+	if f == "ts" && r.bool() { // damage that keeps the packet structure: most of what is interesting lies behind it
+		d = mutateTS(r, d)
+		if r.bool() {
+			d = mutateTS(r, d)
+		}
+		return d
+	}
 	if f != "ts" && f != "stl" && r.chance(1, 4) {
 		d = shrinkField(r, d)
 		if r.bool() {
@@ -415,15 +429,29 @@ func init() {
 				kind = "valid"
 				d = validDoc(r, f)
 			default:
-				d = damage(r, f, validDoc(r, f))
+				d = validDoc(r, f)
+				page := lastTSPage
+				d = damage(r, f, d)
 				if r.chance(1, 3) {
 					d = damage(r, f, d)
 				}
+				lastTSPage = page
 			}
 			if len(d) > 300000 {
 				d = d[:300000]
 			}
-			c.do(fmt.Sprintf("tot.read %s %d %s", f, r.intn(3000), encBytes(d)))
+			opt := r.intn(3000)
+			if f == "ts" && kind != "arbitrary" {
+				// the page the stream carries (given, or found by the reader), not one it does not carry: that is where
+				// the damaged rows are looked at
+				switch r.intn(3) {
+				case 0:
+					opt = 0
+				case 1:
+					opt = lastTSPage % 900
+				}
+			}
+			c.do(fmt.Sprintf("tot.read %s %d %s", f, opt, encBytes(d)))
 			c.count(f + "-" + kind)
 		}
 		// tiny inputs, exhaustively short prefixes of every sample document
